@@ -109,6 +109,14 @@ def _run_task(args):
                       "analysis budget of %d s exceeded (expression swell): undecided, not a verdict" % limit))
         return dict(task=task_id, obs=obs, info=col.info if col is not None else {}, wall=time.time() - t0)
     except BaseException as e:  # noqa
+        from .interp import InterpRaise
+
+        if isinstance(e, InterpRaise) and e.origin != "native":
+            # the analysed code itself raises on a configuration the property declares valid
+            obs = list(col.obs) if col is not None else []
+            obs.append(ob("task", task_id, "every scripted (valid) configuration of this task is processed without the analysed code raising", VIOLATION,
+                          "analysed code raises %s [%s]" % (e, e.where)))
+            return dict(task=task_id, obs=obs, info=col.info if col is not None else {}, wall=time.time() - t0)
         # keep what was decided before the failure (a violation found earlier in the task must not be lost)
         obs = list(col.obs) if col is not None else []
         obs.append(ob("task", task_id, "task execution", ERROR, "%s: %s\n%s" % (type(e).__name__, e, traceback.format_exc()[-1800:])))
